@@ -7,6 +7,7 @@ Tie (T1): request sequences are played against the REAL main_server / handlers (
   recorded from nbformat / nbdime / os.path) and compared step by step: status, body, directory contents, stop, exit code.
 Property on the implementation (T2): evaluated directly on what the real server did, with oracles that share no code
   with nbdime's web layer (pyspec.spec_patch, nbformat, directory snapshots, the library called in a fresh process)."""
+import re
 import os, sys, time, json, copy, re, base64, hashlib, posixpath, tempfile, shutil, subprocess, math, urllib.parse
 from concurrent.futures import ThreadPoolExecutor
 import core, pyspec, c20_gen
@@ -26,6 +27,28 @@ ASSUME = [
 F12_SIG = 'store-truncates-output-before-serialising'
 
 # ----------------------------------------------------------------------------- small helpers
+def cell_ids(nb):
+    return {c.get('id') for c in (nb.get('cells') or []) if isinstance(c, dict) and 'id' in c} if isinstance(nb, dict) else set()
+
+def all_cell_ids(x, acc=None):
+    acc = set() if acc is None else acc
+    if isinstance(x, dict):
+        if 'cell_type' in x and isinstance(x.get('id'), str): acc.add(x['id'])
+        for v in x.values(): all_cell_ids(v, acc)
+    elif isinstance(x, list):
+        for v in x: all_cell_ids(v, acc)
+    return acc
+
+def mask_generated_ids(x, known):
+    """cell ids that occur in none of the three input notebooks were generated at random by nbformat while READING a 4.5 notebook
+    with an id-less cell (each process draws its own): they are compared as a placeholder"""
+    if isinstance(x, dict):
+        y = {k: mask_generated_ids(v, known) for k, v in x.items()}
+        if 'cell_type' in y and isinstance(y.get('id'), str) and y['id'] not in known: y['id'] = '<generated>'
+        return y
+    if isinstance(x, list): return [mask_generated_ids(v, known) for v in x]
+    return x
+
 def canon(v): return json.dumps(v, sort_keys=True, ensure_ascii=True)
 def mp(s): return s.replace('{ROOT}', ROOTM) if isinstance(s, str) else s
 
@@ -338,14 +361,19 @@ def judge_step(sc, T, i):
             if 'ok' in lib: out.append(('valid-merge-request-rejected', {'status': status}))
         elif 'ok' in lib:
             if canon(body.get('base')) != canon(b): out.append(('merge-answer-base-is-not-the-base-notebook', {}))
-            if canon(body.get('merge_decisions')) != canon(lib['ok']):
+            ia, ib = all_cell_ids(body.get('merge_decisions')), all_cell_ids(lib['ok'])
+            known = (ia | ib) - {i for i in (ia ^ ib) if re.fullmatch('[0-9a-f]{8}', i)}     # ids of nbformat's random shape seen in one answer only
+            if canon(mask_generated_ids(body.get('merge_decisions'), known)) != canon(mask_generated_ids(lib['ok'], known)):
                 out.append(('merge-answer-differs-from-library', {'library': lib['ok'], 'server': body.get('merge_decisions')}))
     return out, view
 
 
 def same_answer(a, b):
-    ka = (a['status'], canon(a.get('json')), sorted(a['changed']), canon(a['changed_now']))
-    kb = (b['status'], canon(b.get('json')), sorted(b['changed']), canon(b['changed_now']))
+    ja, jb = a.get('json'), b.get('json')
+    ia, ib = all_cell_ids(ja), all_cell_ids(jb)
+    known = (ia | ib) - {i for i in (ia ^ ib) if re.fullmatch('[0-9a-f]{8}', i)}     # nbformat's random ids for id-less 4.5 cells: drawn anew per read
+    ka = (a['status'], canon(mask_generated_ids(ja, known)), sorted(a['changed']), canon(a['changed_now']))
+    kb = (b['status'], canon(mask_generated_ids(jb, known)), sorted(b['changed']), canon(b['changed_now']))
     return ka == kb
 
 
